@@ -164,6 +164,16 @@ def run(ctx):
             continue
         got = call_align(fa, M, labels, blank)
         T, C = len(M), len(M[0])
+        if blank == C - 1 and blank not in labels and ctx.rng.random() < 0.3:
+            # the last class addressed from the end (blank = -1), as Python indexing allows: the same alignment
+            got_neg = call_align(fa, M, labels, -1)
+            if isinstance(got_neg, list):
+                got_neg = [x % C for x in got_neg]        # the blank may come back as -1: the same class
+            pos_neg = call_positions(fa, M, labels, -1) if labels else 'failure'
+            if got_neg != got or (labels and pos_neg != call_positions(fa, M, labels, blank)):
+                ctx.violation('blank-index:-1', 'with the blank given as -1 (the last class) force_align / align_text give another answer than with its positive index',
+                              dict(inp, blank=-1), [got_neg, pos_neg], got)
+            ctx.count('blank_as_-1')
         small = C ** T <= 20000
         best = brute(M, labels, blank) if (small and labels and blank not in labels) else None
         cls = 'ok' if isinstance(got, list) else got
